@@ -1,5 +1,13 @@
 package main
 
+import (
+	"encoding/json"
+	"fmt"
+	"strings"
+)
+
+func jsonUnmarshal(raw string, v any) error { return json.Unmarshal([]byte(raw), v) }
+
 // Obligations that are not SMT-backed: table facts, ground constant facts, flow (dependency / secrecy) clauses,
 // frame clauses and labelled bounded stand-ins.
 
@@ -17,6 +25,9 @@ func (s *Session) extraObligations(prop string) ([]*Obligation, error) {
 			}
 		}
 	}
+	if prop == "C15" {
+		out = append(out, s.planSummaryObligations()...)
+	}
 	switch prop {
 	case "C20":
 		out = append(out, s.c20Obligations()...)
@@ -28,4 +39,46 @@ func (s *Session) extraObligations(prop string) ([]*Obligation, error) {
 		}
 	}
 	return out, nil
+}
+
+// planSummaryObligations: labelled BOUNDED stand-in for the free-text rewriting of attr.planSummary (C15).
+func (s *Session) planSummaryObligations() []*Obligation {
+	_, raw, err := runHarnessRaw(map[string]any{"mode": "plansummary"})
+	mk := func(name, bound string) *Obligation {
+		return &Obligation{Name: name, Fn: "redactFieldNamesFromPlanSummary", Kind: "bounded", Props: []string{"C15"}, Backend: "bounded-enumeration", Clause: bound}
+	}
+	plain := mk("bounded:redactFieldNamesFromPlanSummary/plain-names", "all plan summaries with 1..3 index keys (one or two IXSCAN stages) over the names zip, qty, uuu.www, _id, town, 9wk, plus COLLSCAN / IDHACK / EOF / empty: output equals the token-wise specification (every dotted component replaced by its pseudonym, nothing else touched)")
+	adv := mk("bounded:redactFieldNamesFromPlanSummary/names-that-are-substrings", "the same enumeration over the names a, b, IX, e1, a.b (names that are substrings of each other, of IXSCAN, or hex digits of a pseudonym)")
+	if err != nil {
+		plain.Result, plain.Raw = "error", err.Error()
+		adv.Result, adv.Raw = "error", err.Error()
+		return []*Obligation{plain, adv}
+	}
+	var reply struct {
+		Data struct {
+			PlainTried int      `json:"plain_tried"`
+			PlainFail  int      `json:"plain_failures"`
+			PlainEx    []string `json:"plain_examples"`
+			AdvTried   int      `json:"adversarial_tried"`
+			AdvFail    int      `json:"adversarial_failures"`
+			AdvEx      []string `json:"adversarial_examples"`
+		} `json:"data"`
+	}
+	if e := jsonUnmarshal(raw, &reply); e != nil {
+		plain.Result, plain.Raw = "error", e.Error()
+		adv.Result, adv.Raw = "error", e.Error()
+		return []*Obligation{plain, adv}
+	}
+	plain.Clause += fmt.Sprintf(" [%d inputs]", reply.Data.PlainTried)
+	adv.Clause += fmt.Sprintf(" [%d inputs]", reply.Data.AdvTried)
+	plain.Result, adv.Result = "pass", "pass"
+	if reply.Data.PlainFail > 0 || reply.Data.PlainTried == 0 {
+		plain.Result = "fail"
+		plain.Raw = fmt.Sprintf("%d of %d inputs deviate, e.g. %s", reply.Data.PlainFail, reply.Data.PlainTried, strings.Join(reply.Data.PlainEx, " | "))
+	}
+	if reply.Data.AdvFail > 0 || reply.Data.AdvTried == 0 {
+		adv.Result = "fail"
+		adv.Raw = fmt.Sprintf("%d of %d inputs deviate, e.g. %s", reply.Data.AdvFail, reply.Data.AdvTried, strings.Join(reply.Data.AdvEx, " | "))
+	}
+	return []*Obligation{plain, adv}
 }
